@@ -183,6 +183,28 @@ def reuse_sequences():
             [cf('b', ('max_length', '25')), rn, add, cf('b', ('db_index', 'true'))]]
 
 
+def unique_spec():
+    spec = optrig.start_spec()
+    spec['apps'][0]['models'][0]['fields'].append(
+        {'name': 'u', 'type': 'CharField', 'attrs': {'max_length': 10, 'unique': True}, 'related': None})
+    return spec
+
+
+def unique_rename_sequences():
+    """a unique column renamed, then an index attribute of the renamed field changed in the same batch (and the
+    other way round): what the later change costs must not depend on bookkeeping the rename left behind"""
+    cf = lambda field, *attrs: {'t': 'ChangeField', 'model': 'Alpha', 'field': field, 'ftype': None, 'initial': None,
+                                'attrs': [list(a) for a in attrs]}
+    rn = lambda old, new: {'t': 'RenameField', 'model': 'Alpha', 'old': old, 'new': new, 'db_column': None,
+                           'db_table': None}
+    return [[rn('u', 's'), cf('s', ('db_index', 'true'))],
+            [rn('u', 's'), cf('s', ('db_index', 'true')), cf('a', ('null', 'true'))],
+            [rn('u', 's'), cf('s', ('db_index', 'false'))],
+            [cf('u', ('db_index', 'true')), rn('u', 's')],
+            [rn('u', 's'), rn('s', 't'), cf('t', ('db_index', 'true'))],
+            [rn('a', 'z'), cf('z', ('unique', 'false'))]]
+
+
 def run(ctx):
     dj.setup()
     quick = ctx.tier == 'quick'
@@ -219,7 +241,8 @@ def run(ctx):
     ir3 = list(optrig.valid_sequences(sig, ira, 3))
     ctx.rng.shuffle(ir3)
     ir += ir3[:50 if quick else 2000]
-    work = [(spec, q) for q in meta_sequences() + reuse_sequences() + rebuild_then_meta_sequences()] + [(spec2, q) for q in rel] + [(spec, q) for q in ir] + \
+    work = [(unique_spec(), q) for q in unique_rename_sequences()] + \
+        [(spec, q) for q in meta_sequences() + reuse_sequences() + rebuild_then_meta_sequences()] + [(spec2, q) for q in rel] + [(spec, q) for q in ir] + \
         [(spec, q) for q in seqs]
     merge_witness = None
     reqs = []
